@@ -326,6 +326,10 @@ def canon(t):
             return _fmt_format(x[1][1][1], x[2], x[3])
         if k == "fstr":
             return fmt(*x[1])
+        if k in ("ifexp", "gate") and x[1][0] == "const":
+            return x[2] if x[1][1] else x[3]       # a condition that is a literal (an inlined helper's flag parameter)
+        if k == "unary" and x[1] == "not" and x[2][0] == "const" and isinstance(x[2][1], bool):
+            return ("const", not x[2][1])
         if k == "fmt":
             r = fmt(*x[1])
             return r if r != x else None
@@ -415,6 +419,18 @@ def select(t, decide):
             c = truth(x[1], decide)
             if c is not None:
                 return x[2] if c else x[3]
+        if x[0] == "boolop":
+            # a or b: a when a is true, b when a is false (and dually)
+            rest = list(x[2])
+            while len(rest) > 1:
+                c = truth(rest[0], decide)
+                if c is None:
+                    break
+                if (x[1] == "or") == c:
+                    return rest[0]
+                rest = rest[1:]
+            if len(rest) != len(x[2]):
+                return rest[0] if len(rest) == 1 else ("boolop", x[1], tuple(rest))
         return None
     return canon(subst(t, fn))
 
@@ -802,7 +818,12 @@ class Extractor(object):
             t = ("call", func, tuple(args), kws)
             if func == ("global", "getattr") and len(args) == 2 and not kws and args[1][0] == "const" and isinstance(args[1][1], str):
                 return ("attr", args[0], args[1][1])      # getattr(x, "name") is x.name
-            if self.inliner is not None and not bound and self.depth < 2:
+            if func == ("global", "setattr") and len(args) == 3 and not kws and args[1][0] == "const" and isinstance(args[1][1], str) \
+                    and not bound:
+                # setattr(x, "name", v) is x.name = v
+                self.emit("store", ("attr", args[0], args[1][1]), args[2], guards, loops, node)
+                return ("const", None)
+            if self.inliner is not None and self.depth < 2:
                 tgt = self.inliner(func, args, kws)
                 if tgt is not None:
                     fn_node, binding, label = tgt
